@@ -4,6 +4,7 @@
   Property theorems ONLY.  For ALL datasets: any number of rows, any tokens satisfying the explicit well-formedness predicates.
 -/
 import Kapture.Lemmas.C01Typed
+import Kapture.Lemmas.C01Points
 
 namespace Kapture.C01
 open Kapture.Csv Kapture.Gen.RecordSchemas
@@ -234,6 +235,31 @@ example : Lawful ({ render := showInt, parse := readInt } : Codec Int) :=
   ⟨readInt_showInt, fun x => ⟨(showInt_fieldOK x).1, (showInt_fieldOK x).2.1⟩, by decide⟩
 
 -- C02 ------------------------------------------------------------------------------------------------------------------
+
+/-- 3-D POINT COORDINATES: the writer prints each number with `Gen.Headers.pointsDecimals` digits after the point (regenerated from
+    the fmt of points3d_to_file), i.e. as a whole count of 10^-d units nearest to the value.  For EVERY value and WHICHEVER nearest
+    count is printed (no assumption on the tie rule), the number read back is within 1e-10 of the value — in fact within half that -/
+theorem points_within_1e10 (x : Rat) (n : Int) (h : Nearest Gen.Headers.pointsDecimals x n) :
+    |x - readUnits Gen.Headers.pointsDecimals n| ≤ 1 / 10 ^ 10 := by
+  have h1 := nearest_within _ x n h
+  have h2 : (1 : Rat) / (2 * scale Gen.Headers.pointsDecimals) ≤ 1 / 10 ^ 10 := by
+    unfold scale Gen.Headers.pointsDecimals; norm_num
+  exact le_trans h1 h2
+
+/-- every value has such a count: nothing is unwritable -/
+theorem points_writable (x : Rat) : ∃ n, Nearest Gen.Headers.pointsDecimals x n := ⟨_, nearest_round _ x⟩
+
+/-- saving the RELOADED points again: a value that was read from a count of units can only be printed as that same count, so the
+    second points3d.txt has the same numbers digit for digit -/
+theorem points_resave_same_units (m n : Int) (h : Nearest Gen.Headers.pointsDecimals (readUnits Gen.Headers.pointsDecimals m) n) :
+    n = m := nearest_of_units _ m n h
+
+/-- non-vacuity and the reader of tokens: "-12.0000000035" is 120000000035 units below zero, nearest to -12.00000000351 -/
+example : unitsOfToken Gen.Headers.pointsDecimals "-12.0000000035".toList = some (-120000000035) ∧
+    Nearest Gen.Headers.pointsDecimals (-1200000000351 / 100000000000) (-120000000035) := by
+  constructor
+  · decide +kernel
+  · unfold Nearest scale Gen.Headers.pointsDecimals; norm_num
 
 /-- the columns the code writes are, file by file and position by position, the columns the specification documents
   (modulo the five documented aliases), and both agree on the format version -/
